@@ -247,7 +247,7 @@ def parse_output(text):
 _MODEL_EXE = [None]
 def model_exe():
     if _MODEL_EXE[0] is None:
-        _MODEL_EXE[0] = build_extracted("eval_driver.ml", "eval_driver")
+        _MODEL_EXE[0] = build_extracted("eval")
     return _MODEL_EXE[0]
 def run_model(casefile, exact_limit=4000):
     exe = model_exe()
